@@ -38,6 +38,36 @@ func vc05_url(k, n int) {
 	}
 }
 
+// vurlBytes returns up to n bytes over the alphabet the URL state machine
+// distinguishes: '?', '&', '=', '#', 'a'.
+func vurlBytes(n int) []byte {
+	b := vsym_bytes(n)
+	for _, c := range b {
+		vassume(c == '?' || c == '&' || c == '=' || c == '#' || c == 'a')
+	}
+	return b
+}
+
+// a value, a text and a value again inside one URL attribute (quoted or
+// not), each up to n bytes over the alphabet above: no run-time panic
+func vc05_urlseq(n int) {
+	var w vWriter
+	r := newRenderer(&w)
+	c := Context(ast.ContextQuotedAttr) | 0x80
+	if vsym_bool() {
+		c = Context(ast.ContextUnquotedAttr) | 0x80
+	}
+	isSet := vsym_bool()
+	_ = r.Show(nil, vStringer{string(vurlBytes(n))}, c)
+	txt := vurlBytes(n)
+	vassume(len(txt) > 0)
+	_ = r.Text(txt, true, isSet)
+	_ = r.Show(nil, vStringer{string(vurlBytes(1))}, c)
+	_ = r.Text([]byte{'"'}, false, false)
+	vassert(!r.query && !r.addAmpersand && !r.removeQuestionMark, "url-flags-reset-outside-url")
+	vreach("end")
+}
+
 // the URL escapers on arbitrary strings: no run-time panic
 func vc05_escapers(n int) {
 	s := vsym_string(n)
@@ -52,6 +82,8 @@ func vh_c05_escapers_t() { vc05_escapers(5) }
 func vh_c05_url_q() { vc05_url(2, 1) }
 func vh_c05_url_t() { vc05_url(3, 1) }
 func vh_c05_url2_t() { vc05_url(1, 3) }
+func vh_c05_urlseq_q() { vc05_urlseq(2) }
+func vh_c05_urlseq_t() { vc05_urlseq(3) }
 
 
 
